@@ -10,10 +10,12 @@ Families (each job = one array / one index state with ALL its option combination
             -1, -128/-129, -32768/-32769, -2^31/-2^31-1, -2^40 in several input dtypes; a value >= 2^20
             reaches from_array only with `counts=` given or a negative value present
             (numpy.bincount allocates 8*max bytes; asserted before every call)
-  big       79/80/100/120-row (1-D) and 39/40/100-row x 2 (2-D) arrays of a filler plus an exhaustively placed
-            payload of 4 uncommon cells with 4 different other values (>= 5 distinct values, <= 5 % uncommon:
-            the row-scan strategy, and just below the switch: the where strategy), plus 100/120 all-distinct
-            values (row-scan with an absent common), x the same options
+  big       the smallest arrays with >= 5 distinct values (5..8 cells); 79/80/100/120-row (1-D) and 39/40/100-row x 2
+            (2-D) arrays of a filler plus a payload of 4 uncommon cells placed on every 4-subset of 5 candidate cells
+            with every ordered choice of 4 different other values (>= 5 distinct values, <= 5 % uncommon: the row-scan
+            strategy; one row below the switch: the where strategy), 100/120 all-distinct values (row-scan with an
+            absent common) and 0/1-alternating arrays folded by a mapping, x the same options (mappings: an evenly
+            spaced subset of the 3^k maps into {5,6,300} plus fixed shift / rotation / fold maps)
   states    every well-formed index state (built with mk, not through from_array) handed to to_array with
             default dtype, dtype=int, the tightest sufficient dtype, and every total mapping into {-2,5,300}
 
